@@ -500,13 +500,22 @@ def check_heap(rep, repo: Repo, pre: str = "") -> None:
                "the sift/insert must see the new cost")
     init = W["__init__"]
     cinit = [e for e in init.events if e.kind == "store" and e.target == COLOR]
-    okw = len(cinit) == 1 and cinit[0].value[0] == "listcomp" and cinit[0].value[1] == K("WHITE")
+    def filled(v, n):
+        """(element value, length term ok?) for `[val for _ in range(n)]` and `[val] * n` / `n * [val]`."""
+        if v[0] == "listcomp" and len(v[2]) == 1 and not v[2][0][2]:
+            return v[1], v[2][0][0] == ("call", ("builtin", "range"), (n,), ())
+        if v[0] == "bin" and v[1] == "*":
+            for lst, k in ((v[2], v[3]), (v[3], v[2])):
+                if lst[0] == "alloc" and lst[1] == "list" and len(lst[2]) == 1 and lst[2][0][0] != "star":
+                    return lst[2][0], k == n
+        return None, False
+
+    okw = len(cinit) == 1 and filled(cinit[0].value, ("param", init.entry.params[1]))[0] == K("WHITE")
     rep.fn(pre + "H5-init", init.entry, "every element starts WHITE", okw, "color must be initialised to WHITE")
     sized = ("call", ("builtin", "range"), (("param", init.entry.params[1]),), ())
     for fld, val in (("cost", K("FLOAT_MAX")), ("color", K("WHITE")), ("p", ("const", -1)), ("pos", ("const", -1))):
         st = [e for e in init.events if e.kind == "store" and e.target == ("attr", SELF, fld)]
-        ok = len(st) == 1 and st[0].value[0] == "listcomp" and st[0].value[1] == val and len(st[0].value[2]) == 1 \
-            and st[0].value[2][0][0] == sized and not st[0].value[2][0][2]
+        ok = len(st) == 1 and filled(st[0].value, ("param", init.entry.params[1])) == (val, True)
         rep.fn(pre + "H-init", init.entry, f"{fld}[] has one slot per element (capacity `size`) initialised to {show(val)}", ok,
                f"{fld} is initialised as '{show(st[0].value) if st else '?'}' over '{show(st[0].value[2][0][0]) if st and st[0].value[0] == 'listcomp' else '?'}'")
 
